@@ -180,17 +180,11 @@ theorem extrapolate_header (corr : Corr C P) (sys : List (MolInst C)) (title : S
 
 /-- the title line that reaches the file is the input's first line, unchanged: the reader keeps the
     line terminator (`comment_line = t ++ "\n"`), the `comment` setter strips it, the writer adds it
-    back.  (`t` non-empty: the reader rejects an empty first line.) -/
-theorem title_roundtrip (t : List Char) (hne : t ≠ []) (hlast : t.getLast? ≠ some '\n') :
+    back — also for an empty title (`t = []`). -/
+theorem title_roundtrip (t : List Char) (hlast : t.getLast? ≠ some '\n') :
     writtenTitle (t ++ ['\n']) = some (t ++ ['\n']) := by
-  obtain ⟨c, hc⟩ : ∃ c, t.getLast? = some c := by
-    cases h : t.getLast? with
-    | none => simp [List.getLast?_eq_none_iff] at h; exact absurd h hne
-    | some c => exact ⟨c, rfl⟩
-  have hcn : (c == '\n') = false := by
-    simp only [beq_eq_false_iff_ne, ne_eq]
-    intro e; rw [e] at hc; exact hlast hc
-  simp [writtenTitle, hc, hcn]
+  have h : (t.getLast? == some '\n') = false := by simpa using hlast
+  simp [writtenTitle, h]
 
 /-- **pre-flight**: if no species is complete, or some complete species has no exchange map, the
     call raises `SystemError` and performs NO operation on the output — the file is not even opened
